@@ -7,6 +7,7 @@ mod c02;
 mod c03;
 mod c04;
 mod c05;
+mod c06;
 mod c07;
 mod c08;
 mod c12;
@@ -88,6 +89,7 @@ fn main() {
         "C03" => c03::run(&args),
         "C04" => c04::run(&args),
         "C05" => c05::run(&args),
+        "C06" => c06::run(&args),
         "C07" => c07::run(&args),
         "C08" => c08::run(&args),
         "C12" => c12::run(&args),
